@@ -7,7 +7,7 @@ export GOFLAGS=-mod=mod GOPROXY=off GOSUMDB=off GOTOOLCHAIN=local
 prop=$1; name=$2; out=$3; shift 3; pkgs="$@"
 wt=/tmp/seedcheck-$name
 git -C /repo worktree remove --force $wt 2>/dev/null
-git -C /repo worktree add -q --detach $wt HEAD || exit 2
+git -C /repo worktree add -q --detach $wt ${SEED_BASE:-HEAD} || exit 2
 demo=$(ls $out/*_test.go | head -1)
 demopath=$(cat $out/demo_path.txt 2>/dev/null || echo "")
 if [ -z "$demopath" ]; then demopath=$(grep -l "" /dev/null; echo "$4"); fi
@@ -29,9 +29,9 @@ cp $out/patch.diff /verif/seeded/$name/patch.diff
 cp $demo /verif/seeded/$name/
 cp $out/notes.md /verif/seeded/$name/notes.md 2>/dev/null
 # run my check against it
-git -C /repo apply $out/patch.diff
-/verif/bin/govc check --property $prop --tier quick --verif /verif --no-evidence > /tmp/seedcheck-$name.check.log 2>&1; chk=$?
-git -C /repo checkout -- .
+# the change is applied in memory (go/packages overlay): /repo itself is not touched, so this can run
+# while another check is reading /repo; tools_seedmatrix.sh applies the patch to the working tree instead
+${GOVC:-/verif/bin/govc} check --property $prop --tier quick --repo ${GOVC_REPO:-/repo} --verif ${GOVC_VERIF:-/verif} --mutant $out/patch.diff > /tmp/seedcheck-$name.check.log 2>&1; chk=$?
 viol=$(grep -c '^VIOLATION' /tmp/seedcheck-$name.check.log)
 confirmed=$(grep '^VIOLATION' /tmp/seedcheck-$name.check.log | grep -vc 'no-failing-input-found')
 echo "check exit=$chk violations=$viol replay-confirmed=$confirmed"
@@ -42,7 +42,7 @@ prop,name,demopath,base,build,withc,suite,chk,viol,conf,pkgs=sys.argv[1:12]
 failed=[l.strip() for l in open('/tmp/seedcheck-%s.check.log'%name) if l.startswith('FAILED-OBLIGATION')][:8]
 meta={"property":prop,"seed":name,"demo_test_path":demopath,
  "confirmed_in_scratch_worktree":{"demo_without_change_exit":int(base),"build_with_change_exit":int(build),"demo_with_change_exit":int(withc),"existing_tests_with_change_exit":int(suite),"packages_tested":pkgs},
- "what_was_run":["git worktree add (scratch)","go test -run TestSeededDemo (unchanged tree)","git apply patch.diff","go build ./...","go test -run TestSeededDemo (changed tree)","go test -count=1 "+pkgs+" (changed tree, demo removed)","git apply on /repo; /verif/check %s quick; git checkout -- ."%prop],
+ "what_was_run":["git worktree add (scratch)","go test -run TestSeededDemo (unchanged tree)","git apply patch.diff","go build ./...","go test -run TestSeededDemo (changed tree)","go test -count=1 "+pkgs+" (changed tree, demo removed)","govc check --property %s --tier quick --mutant patch.diff (the change applied in memory on top of /repo)"%prop],
  "check_result":{"exit":int(chk),"violation_lines":int(viol),"replay_confirmed":int(conf),"failed_obligations":failed}}
 json.dump(meta,open('/verif/seeded/%s/meta.json'%name,'w'),indent=1)
 PY
